@@ -83,7 +83,10 @@ class IR(AuxDataContainer):
         self._local_uuid_cache: typing.Dict[UUID, Node] = {}
         # Modules are decoded before the aux data, since the UUID decoder
         # checks Node's cache.
-        self.modules = IR._ModuleList(self, modules)
+        # Assigned before it is filled: appending a module that the iterable
+        # lists a second time removes it from ``self.modules`` first.
+        self.modules = IR._ModuleList(self)
+        self.modules.extend(modules)
         self.cfg = CFG(cfg)
         self.version = version
         super().__init__(aux_data, uuid)
